@@ -26,6 +26,17 @@ Structural(m) ==
 
 Shifts == UNION {{UpT(f, t, a) : a \in Atoms(f)} \cup {DownT(f, t, a) : a \in Atoms(f)} : f \in Ms, t \in Ms}
 
+\* a shift directly under a shift, all 4 x 4 mode pairs on both levels (each may be legal alone and still not chain)
+Inner == UNION {{UpT(f, t, Unit(f)), DownT(f, t, Unit(f))} : f \in ModeSet, t \in ModeSet}
+Shifts2 == UNION {{UpT(f, t, i) : i \in Inner} \cup {DownT(f, t, i) : i \in Inner} : f \in ModeSet, t \in ModeSet}
+
+\* binary constructors over one-constructor components (depth 2), and choices over shifts
+Deep(m) == {Send(a, b, m) : a \in Atoms(m), b \in Structural(m) \ Atoms(m)}
+      \cup {Recv(a, b, m) : a \in Structural(m) \ Atoms(m), b \in Atoms(m)}
+      \cup {Sel(<<Opt("l", a), Opt("r", b)>>, m) : a \in Atoms(m), b \in {x \in Shifts : x.to = m}}
+      \cup {Bra(<<Opt("l", a)>>, m) : a \in {x \in Shifts : x.to = m}}
+      \cup {Send(a, b, m) : a \in {x \in Shifts : x.to = m}, b \in Atoms(m)}
+
 \* shapes nested one level deeper on the left / right (unrolled variants)
 Nested(m) == {Send(Send(a, b, m), c, m) : a, b, c \in {Unit(m), Name("A", m)}}
         \cup {Send(a, Send(b, c, m), m) : a, b, c \in {Unit(m), Name("A", m)}}
@@ -43,7 +54,8 @@ IllShapes == {Sel(<<Opt("l", Unit("rep")), Opt("l", Name("A", "rep"))>>, "rep"),
               UpT("rep", "lin", Unit("rep")), DownT("lin", "rep", Unit("lin")), DownT("aff", "mul", Unit("aff")),
               UpT("lin", "rep", Unit("rep")), DownT("rep", "lin", Unit("lin")), Unit("bogus"), Send(Unit("bogus"), Unit("bogus"), "bogus")}
 
-ASSUME JsonSerialize(IOEnv.VERIF_OUT, [small |-> SetToSeq(ShapesSmall), full |-> SetToSeq(ShapesFull), ill |-> SetToSeq(IllShapes)])
+ASSUME JsonSerialize(IOEnv.VERIF_OUT, [small |-> SetToSeq(ShapesSmall), full |-> SetToSeq(ShapesFull), ill |-> SetToSeq(IllShapes),
+                                       shift2 |-> SetToSeq(Shifts2), deep |-> SetToSeq(Deep("rep") \cup Deep("lin"))])
 VARIABLE x
 Init == x = 0
 Next == UNCHANGED x
